@@ -21,18 +21,18 @@ PairCoreQ == {Leaf("int", "i_neg"), Leaf("int", "i_pos"), Leaf("bool", "b_true")
               Leaf("float", "f_nan"), Leaf("float", "f_negzero"), Leaf("str", "s_both"),
               Leaf("bytes", "y_high"), Leaf("enum", "e_top"), Leaf("enum", "e_nested"),
               Cplx("f_pos", "f_negzero"), Leaf("obj", "o_plain")}
-PairCoreT == PairCoreQ \cup {Leaf("int", "i_zero"), Leaf("int", "i_huge"), Leaf("int", "i_digits"),
-              Leaf("bool", "b_false"), Leaf("float", "f_zero"), Leaf("float", "f_inf"), Leaf("float", "f_neg"),
-              Leaf("float", "f_exp"), Leaf("str", "s_surrogate"), Leaf("str", "s_empty"),
+PairCoreT == PairCoreQ \cup {Leaf("int", "i_zero"), Leaf("int", "i_digits"), Leaf("bool", "b_false"),
+              Leaf("float", "f_zero"), Leaf("float", "f_inf"), Leaf("str", "s_surrogate"),
               Leaf("bytes", "y_both"), Leaf("enum", "e_int"), Leaf("enum", "e_str"),
               Leaf("enum", "e_flagcombo"), Leaf("enum", "e_foreign"), Cplx("f_nan", "f_ninf"),
-              Leaf("obj", "o_decimal"), Leaf("obj", "o_dict_keys")}
+              Leaf("obj", "o_dict_keys")}
 PairCore == IF Size = "quick" THEN PairCoreQ ELSE PairCoreT
 NestCore == PairCore \cup {Leaf("float", "f_pos"), Leaf("str", "s_squote"), Leaf("int", "i_neghuge")}
 
 (* values that are equal and hash alike collapse inside sets / as dict keys: not enumerated together *)
 NumGroup(x) == CASE x.c \in {"i_zero", "f_zero", "f_negzero", "b_false"} -> 1
-                 [] x.c \in {"i_pos", "e_int"} -> 2 [] x.c \in {"i_neg", "e_negint"} -> 3 [] OTHER -> 0
+                 [] x.c \in {"i_pos", "e_int"} -> 2 [] x.c \in {"i_neg", "e_negint"} -> 3
+                 [] x.c \in {"i_one", "b_true"} -> 4 [] OTHER -> 0
 Collide(a, b) == a # b /\ NumGroup(a) # 0 /\ NumGroup(a) = NumGroup(b)
 
 Seqs(S, P) == {<<>>} \cup {<<a>> : a \in S} \cup {<<a, b>> : a, b \in P}
